@@ -138,4 +138,4 @@ def fsck_logged(tools, img, opts, env, cpu=60):
         pass
     return p, probs
 
-mutation = st.tuples(st.integers(0, 17), st.integers(0, 500), st.integers(0, 200), st.integers(0, 11), st.integers(0, 1 << 20), st.booleans())
+mutation = st.tuples(st.integers(0, 18), st.integers(0, 500), st.integers(0, 200), st.integers(0, 11), st.integers(0, 1 << 20), st.booleans())
